@@ -11,7 +11,7 @@ import coqlit as L
 ID = "C10"
 COQ_PROPERTY_FILE = "Properties/C10.v"
 COQ_DEPS = ["Common/ListX.v", "Common/ObsHash.v", "Generated/Tables.v", "Model/ContGeom.v", "Model/ContLegacy.v", "Model/ContExp.v",
-            "Proofs/ContGeomProofs.v", "Proofs/ContLegacyProofs.v", "Proofs/ContExpProofs.v"]
+            "Proofs/ContGeomProofs.v", "Proofs/ContLegacyProofs.v", "Proofs/ContExpProofs.v", "Proofs/ContBridge.v"]
 COQ_IMPORTS = "From Mesa Require Import Model.ContGeom Model.ContLegacy Model.ContExp."
 COQ_CASE_TYPE = "case"
 COQ_RUN = "run_case"
@@ -27,8 +27,13 @@ SOURCE_FUNCS = (
         "get_agents_in_radius", "get_k_nearest_agents", "in_bounds", "torus_correct")]
     + [(_AGT, "ContinuousSpaceAgent")]          # position getter/setter, __init__, remove, the two neighbour forms
 )
-TABLE_CONSTRUCTS = ["cont_legacy_oob", "cont_exp_in_bounds", "cont_exp_growth", "cont_exp_kth", "cont_radius_ops",
-                    "cont_wrap", "cont_exp_remove"]
+TABLE_CONSTRUCTS = [
+                    # code-level T1 (harness/tables/continuous_code.py): translated functions + statement skeletons
+                    "cs_legacy_oob_code", "cs_legacy_torus_adj_code", "cs_legacy_distance_code", "cs_legacy_heading_code",
+                    "cs_legacy_nbr_delta_code", "cs_legacy_nbr_dist2_code", "cs_legacy_nbr_select_code", "cs_legacy_skeleton",
+                    "cs_exp_in_bounds_code", "cs_exp_torus_correct_code", "cs_exp_growth_code", "cs_exp_reindex_code",
+                    "cs_exp_compact_code", "cs_exp_diff_code", "cs_exp_dist_code", "cs_exp_kth_code", "cs_exp_radius_code",
+                    "cs_agent_setter_code", "cs_exp_skeleton"]
 ENUM_ALWAYS = False
 RULE = ("histories = one continuous space (legacy: 2-D; experimental: 2-D/3-D, initial capacity in {0,1,2,3,10,100}), bounds "
         "with negative / non-unit origins, torus on/off, then <= 30 operations: place/add, move (in bounds, wrapping, "
@@ -39,7 +44,7 @@ RULE = ("histories = one continuous space (legacy: 2-D; experimental: 2-D/3-D, i
 TRUSTED_BASE = [
     "Coq 8.16.1 kernel (coqc); vm_compute used for the examples, the finite facts and for evaluating the model in the correspondence",
     "no axioms: Print Assumptions reports 'Closed under the global context' for every C10 / C18_continuous theorem",
-    "harness/tables/continuous.py (T1) re-extracting the bounds / radius comparison operators, the growth rule and the argpartition kth from the source",
+    "harness/tables/continuous_code.py + harness/pyexpr.py (code-level T1): 17 helper functions / expressions of the two classes translated to Gallina on every run (per-axis reading of the NumPy expressions, sqrt read as the squared quantity), 2 verbatim statement skeletons for the glue",
     "harness/props/C10.py driver+observer and the Gallina literal printer (T2, differential testing, not a proof)",
     "Model/ContLegacy.v and Model/ContExp.v are hand transcriptions of mesa/space.py:ContinuousSpace and of "
     "mesa/experimental/continuous_space/{continuous_space,continuous_space_agents}.py; dict = insertion-ordered association "
